@@ -14,7 +14,7 @@ EXPLANATION = (
 
 
 def check(ctx, run):
-    run.rules_run = ['R07.1', 'R07.2', 'R07.3', 'R07.4', 'R07.5', 'R07.6', 'R07.7', 'R07.8', 'R07.9']
+    run.rules_run = ['R07.1', 'R07.2', 'R07.3', 'R07.4', 'R07.5', 'R07.6', 'R07.7', 'R07.8', 'R07.9', 'R07.10']
     editing.r06_2(ctx, run, rule='R07.1/R06.2')
     layout.r01_5(ctx, run, rule='R07.2/R01.5', which='ser')
     layout.r01_5(ctx, run, rule='R07.2/R06.3', which='builder')
@@ -24,6 +24,13 @@ def check(ctx, run):
     buffers.r17_5(ctx, run, rule='R07.4/R17.5')
     editing.r06_9(ctx, run, rule='R07.6/R06.9', which=('bytes',))
     editing.r07_8(ctx, run)
+    # results are written where the caller's buffer ends: a header or entry word back-patched at a position that is not relative to the
+    # buffer length at the call lands in earlier content, and the appended document keeps a zero header (R17.2 on the builders and writers)
+    ba = buffers.BufferAnalysis(ctx)
+    for e_ in ('functions::build_array', 'functions::build_object', 'functions::get_by_path', 'functions::get_by_path_first', 'functions::get_by_path_array'):
+        if e_ in ctx.facts.bodies:
+            ba.analyse_entry(ctx.facts.bodies[e_].path)
+    buffers.r17_2(ctx, run, ba, rule='R07.10/R17.2', floor=None)
     accessors.name_variants_alike(ctx, run, 'R07.7', lambda p_: p_.startswith('functions::'))
     from rules import layout as _layout
     _layout.r01_2(ctx, run, rule='R07.9/R01.2')
